@@ -18,6 +18,12 @@ M3  (key) a hand-written memo table must not be keyed on `id(...)` of an
     argument: object identity says nothing about contents, and identities are
     reused after garbage collection.
 
+M4  (hand-written tables) a function that answers from a module-level table
+    (`G.get(k)` / `k in G` / `G[k]` … `G[k] = value`) is a memoised function
+    too: the key must determine everything the function reads from its
+    parameters (a parameter enters the key whole, or the function reads only
+    the projections of it that are in the key), and M1 applies to it.
+
 The rules are instantiated per property over that property's modules; the
 three memoised functions of the emissions package are the standing positive
 control (they must be found, and they are pure).
@@ -156,22 +162,52 @@ def rule_memo(ctx, prop: str, scope: tuple[str, ...], consequence: str):
     ctx.ob(r1, ('src/AEIC', '<scope>'), f'{len(mine)} memoised function(s) in scope {list(scope)}', True,
            'each examined above', nontrivial=False)
 
-    # M2: results of memoised functions are not changed in place by callers in scope
+    # M2: results of memoised functions are not changed in place by callers in scope.  The result may be bound to
+    # a name (depth 0: the name *is* the shared object) or put into a container (`d[k] = f(...)`, depth 1: the
+    # elements of d are shared objects); a store whose access path goes deeper than that writes into the object.
     memoq = {(f.file, f.qualname) for f in memos}
     n_sites = 0
+
+    def _depth_root(t):
+        d, b = 0, t
+        while isinstance(b, (ast.Subscript, ast.Attribute)):
+            d += 1
+            b = b.value
+        return (b.id if isinstance(b, ast.Name) else None), d
+
     for m in prog.src_modules():
         for fi in m.functions.values():
             if not in_scope(fi, scope):
                 continue
             for t, st, how in stores_to(fi.node):
                 v = getattr(st, 'value', None)
-                if not (isinstance(t, ast.Name) and isinstance(v, ast.Call)):
+                if not isinstance(v, ast.Call):
+                    continue
+                root, depth = _depth_root(t)
+                if root is None or root in ('self', 'cls'):
                     continue
                 callee = resolve_call(prog, fi, v)
                 if callee is None or (callee.file, callee.qualname) not in memoq:
                     continue
                 n_sites += 1
-                name = t.id
+                taint = {root: depth}
+                # aliases of the shared object(s): x = d[k], for x in d.values(), for k, x in d.items()
+                for n in walk_no_nested(fi.node):
+                    if getattr(n, 'lineno', 0) <= st.lineno:
+                        continue
+                    if isinstance(n, ast.Assign) and len(n.targets) == 1 and isinstance(n.targets[0], ast.Name):
+                        rt_, dp_ = _depth_root(n.value)
+                        if rt_ == root and isinstance(n.value, (ast.Subscript, ast.Attribute)) and dp_ <= depth and dp_ >= 1:
+                            taint.setdefault(n.targets[0].id, depth - dp_)
+                    if isinstance(n, ast.For) and depth >= 1:
+                        it = n.iter
+                        if isinstance(it, ast.Call) and isinstance(it.func, ast.Attribute) and norm(it.func.value) == root:
+                            if it.func.attr == 'values' and isinstance(n.target, ast.Name):
+                                taint.setdefault(n.target.id, depth - 1)
+                            if it.func.attr == 'items' and isinstance(n.target, ast.Tuple) and len(n.target.elts) == 2 \
+                                    and isinstance(n.target.elts[1], ast.Name):
+                                taint.setdefault(n.target.elts[1].id, depth - 1)
+                name = norm(t)
                 bad = None
                 events = []
                 for n in walk_no_nested(fi.node):
@@ -179,37 +215,45 @@ def rule_memo(ctx, prop: str, scope: tuple[str, ...], consequence: str):
                     if ln <= st.lineno:
                         continue
                     if isinstance(n, (ast.Subscript, ast.Attribute)) and isinstance(n.ctx, (ast.Store, ast.Del)):
-                        b = n
-                        while isinstance(b, (ast.Subscript, ast.Attribute)):
-                            b = b.value
-                        if isinstance(b, ast.Name) and b.id == name:
-                            events.append(((ln, 0), 'mut', f'store into `{norm(n)[:40]}`'))
+                        rt_, dp_ = _depth_root(n)
+                        if rt_ in taint and dp_ > taint[rt_]:
+                            events.append(((ln, 0), 'mut', f'store into `{norm(n)[:40]}`', rt_))
+                    if isinstance(n, ast.AugAssign) and isinstance(n.target, ast.Name) and taint.get(n.target.id) == 0:
+                        events.append(((ln, 0), 'mut', f'in-place `{norm(n)[:40]}`', n.target.id))
                     if isinstance(n, ast.Call):
-                        if isinstance(n.func, ast.Attribute) and n.func.attr in MUTATORS and norm(n.func.value) == name:
-                            events.append(((ln, 0), 'mut', f'`{name}.{n.func.attr}(…)`'))
+                        if isinstance(n.func, ast.Attribute) and n.func.attr in MUTATORS:
+                            rt_, dp_ = _depth_root(n.func.value)
+                            if rt_ in taint and dp_ >= taint[rt_] and not (dp_ == 0 and taint[rt_] > 0):
+                                events.append(((ln, 0), 'mut', f'`{norm(n.func.value)[:30]}.{n.func.attr}(…)`', rt_))
                         else:
                             c2 = resolve_call(prog, fi, n)
                             if c2 is not None:
                                 mp = _mutated_params(prog, c2)
                                 off = 1 if c2.params[:1] in (['self'], ['cls']) and isinstance(n.func, ast.Attribute) else 0
                                 for i, a in enumerate(n.args):
-                                    if isinstance(a, ast.Name) and a.id == name and (i + off) in mp:
-                                        events.append(((ln, 0), 'mut', f'`{c2.name}({name}, …)` stores into that parameter'))
-                    if isinstance(n, ast.Assign) and any(isinstance(x, ast.Name) and x.id == name for x in n.targets):
+                                    rt_, dp_ = _depth_root(a)
+                                    if rt_ in taint and dp_ == taint[rt_] and (i + off) in mp:
+                                        events.append(((ln, 0), 'mut', f'`{c2.name}({norm(a)[:30]}, …)` stores into that parameter', rt_))
+                    if isinstance(n, ast.Assign) and any(isinstance(x, ast.Name) and x.id in taint for x in n.targets):
                         txt = norm(n.value)
-                        if '.copy(' in txt or 'deepcopy(' in txt or txt.startswith(('dict(', 'list(', 'set(')):
-                            events.append(((ln, 1), 'copy', txt[:40]))
+                        who = [x.id for x in n.targets if isinstance(x, ast.Name) and x.id in taint][0]
+                        if '.copy(' in txt or 'deepcopy(' in txt or txt.startswith(('dict(', 'list(', 'set(', 'np.array(')):
+                            events.append(((ln, 1), 'copy', txt[:40], who))
                         else:
-                            events.append(((ln, 1), 'rebind', txt[:40]))
+                            events.append(((ln, 1), 'rebind', txt[:40], who))
                 events.sort(key=lambda e: e[0])
-                for (ln, _), kind, what in events:
+                dead = set()
+                for (ln, _), kind, what, who in events:
+                    if who in dead:
+                        continue
                     if kind in ('copy', 'rebind'):
-                        break
+                        dead.add(who)
+                        continue
                     bad = (ln, what)
                     break
                 ctx.ob(r2, fi, f'{name} = {callee.name}(…) (memoised) is not changed in place', bad is None,
                        'only read, or rebound to a copy before being changed' if bad is None else
-                       (f'{bad[1]} at line {bad[0]} changes the object the cache hands to every later caller of '
+                       (f'{bad[1]} at line {int(-(-bad[0] // 1))} changes the object the cache hands to every later caller of '
                         f'{callee.name} with the same arguments. {consequence}'), line=(bad[0] if bad else st.lineno))
     ctx.ob(r2, ('src/AEIC', '<scope>'), f'{n_sites} call site(s) of memoised functions in scope', True, 'each examined above',
            nontrivial=False)
@@ -256,6 +300,127 @@ def rule_memo(ctx, prop: str, scope: tuple[str, ...], consequence: str):
            nontrivial=False)
 
 
+_M4_CONTROL = """
+_TABLE = {}
+def f(fuel, n):
+    hit = _TABLE.get(fuel.name)
+    if hit is not None:
+        return hit
+    r = fuel.sulfur * n
+    _TABLE[fuel.name] = r
+    return r
+"""
+
+
+def hand_memo_sites(fn: ast.AST, module_names: set[str]):
+    """[(table name, key expr, store stmt)] for tables of the module that fn both looks up and fills under one key"""
+    look, fill = {}, {}
+    for n in walk_no_nested(fn):
+        if isinstance(n, ast.Call) and isinstance(n.func, ast.Attribute) and n.func.attr == 'get' and n.args \
+                and isinstance(n.func.value, ast.Name) and n.func.value.id in module_names:
+            look.setdefault(n.func.value.id, []).append(n.args[0])
+        if isinstance(n, ast.Compare) and len(n.ops) == 1 and isinstance(n.ops[0], (ast.In, ast.NotIn)) \
+                and isinstance(n.comparators[0], ast.Name) and n.comparators[0].id in module_names:
+            look.setdefault(n.comparators[0].id, []).append(n.left)
+        if isinstance(n, ast.Subscript) and isinstance(n.value, ast.Name) and n.value.id in module_names:
+            if isinstance(n.ctx, ast.Store):
+                fill.setdefault(n.value.id, []).append((n.slice, n))
+            elif isinstance(n.ctx, ast.Load):
+                look.setdefault(n.value.id, []).append(n.slice)
+        if isinstance(n, ast.Call) and isinstance(n.func, ast.Attribute) and n.func.attr == 'setdefault' and n.args \
+                and isinstance(n.func.value, ast.Name) and n.func.value.id in module_names:
+            fill.setdefault(n.func.value.id, []).append((n.args[0], n))
+            look.setdefault(n.func.value.id, []).append(n.args[0])
+    out = []
+    for g in look.keys() & fill.keys():
+        for k, st in fill[g]:
+            out.append((g, k, st))
+    return out
+
+
+def key_covers_inputs(fn: ast.AST, key: ast.AST, params: list[str]) -> tuple[bool, str]:
+    """does the key determine what fn reads from its parameters?"""
+    from ..astutil import single_def_value
+    seen = set()
+    k = key
+    while isinstance(k, ast.Name) and k.id not in params and k.id not in seen:
+        seen.add(k.id)
+        v = single_def_value(fn, k.id)
+        if v is None:
+            break
+        k = v
+    whole, proj = set(), {}
+    skip = set()
+
+    def visit(e, under=False):
+        if isinstance(e, ast.Name) and e.id in params:
+            whole.add(e.id)
+            return
+        if isinstance(e, ast.Attribute):
+            b, chain = e, []
+            while isinstance(b, ast.Attribute):
+                chain.append(b.attr)
+                b = b.value
+            if isinstance(b, ast.Name) and b.id in params:
+                proj.setdefault(b.id, set()).add(chain[-1])
+                skip.update(id(x) for x in ast.walk(e))
+                return
+        for c in ast.iter_child_nodes(e):
+            visit(c)
+    visit(k)
+    key_nodes = {id(x) for x in ast.walk(k)} | {id(x) for x in ast.walk(key)}
+    for n in walk_no_nested(fn):
+        if id(n) in key_nodes:
+            continue
+        if isinstance(n, ast.Name) and isinstance(n.ctx, ast.Load) and n.id in params and n.id not in ('self', 'cls'):
+            if n.id in whole:
+                continue
+            par = getattr(n, '_parent', None)
+            if isinstance(par, ast.Attribute) and par.value is n and par.attr in proj.get(n.id, ()):
+                continue
+            what = f'{n.id}.{par.attr}' if isinstance(par, ast.Attribute) and par.value is n else n.id
+            return False, f'the function reads `{what}`, which the key `{norm(key)}` does not determine'
+    return True, 'every parameter the function reads enters the key (whole, or by the projections that are read)'
+
+
+def rule_hand_memo(ctx, prop: str, scope, consequence: str):
+    r4 = f'{prop}-M4'
+    ctl = ast.parse(_M4_CONTROL)
+    from ..loader import _Canon  # noqa: F401
+    for n in ast.walk(ctl):
+        for ch in ast.iter_child_nodes(n):
+            if not isinstance(ch, (ast.expr_context, ast.operator, ast.unaryop, ast.cmpop, ast.boolop)):
+                ch._parent = n
+    cf = ctl.body[1]
+    sites = hand_memo_sites(cf, {'_TABLE'})
+    ctx.control(r4, len(sites) == 1 and not key_covers_inputs(cf, sites[0][1], ['fuel', 'n'])[0],
+                'a table keyed on fuel.name in a function that also reads fuel.sulfur and n is recognised and rejected')
+    n4 = 0
+    for m in ctx.prog.src_modules():
+        names = {k for k, v in m.constants.items()
+                 if isinstance(v, (ast.Dict, ast.Call)) and (isinstance(v, ast.Dict) or norm(v.func) in
+                                                             ('dict', 'OrderedDict', 'collections.OrderedDict', 'defaultdict',
+                                                              'collections.defaultdict', 'WeakValueDictionary',
+                                                              'weakref.WeakValueDictionary'))}
+        if not names:
+            continue
+        for fi in m.functions.values():
+            if not in_scope(fi, scope):
+                continue
+            for g, key, st in hand_memo_sites(fi.node, names):
+                n4 += 1
+                ok, why = key_covers_inputs(fi.node, key, fi.params)
+                reads = [] if not ok else ambient_reads(ctx.prog, fi)
+                reads = [r for r in reads if not (isinstance(r[1], ast.Name) and r[1].id == g)]
+                if ok and reads:
+                    ok, why = False, f'answers from the module-level table `{g}` but reads {reads[0][2]} at line {reads[0][1].lineno}'
+                ctx.ob(r4, fi, f'table {g} keyed on {norm(key)[:50]}', ok,
+                       why if ok else f'{why}: a later call with other inputs under the same key gets the first answer. {consequence}',
+                       line=getattr(st, 'lineno', fi.node.lineno))
+    ctx.ob(r4, ('src/AEIC', '<scope>'), f'{n4} hand-written module-level memo table(s) in scope', True, 'each examined above',
+           nontrivial=False)
+
+
 SCOPES = {
     'C01': (('/emissions/',), 'An inventory computed after the state changed reuses the stale value, so the components no longer '
             'add up to EI × fuel for the configuration in force.'),
@@ -284,3 +449,4 @@ SCOPES = {
 def run_memo(ctx):
     scope, consequence = SCOPES[ctx.prop]
     rule_memo(ctx, ctx.prop, scope, consequence)
+    rule_hand_memo(ctx, ctx.prop, scope, consequence)
